@@ -42,7 +42,7 @@ const nameOfRef = (tpl, r) => { const [pre, post] = tpl.refPathTemplate.split('{
 
 // fresh-context reference per template: returned schema (or the error) per parser, definitions F, reach sets
 const fresh = templates.map((tpl) => {
-  const F = {}, J = {}, reach = {}, conflicts = [];
+  const F = Object.create(null), J = Object.create(null), reach = Object.create(null), conflicts = [];
   for (const p of parserNames) {
     const c = new rt.SchemaPrintingContext(tpl);
     try { J[p] = { schema: ref.parsers[p].schemaWithContext(c) }; } catch (e) { J[p] = { threw: String(e && e.message).slice(0, 120) }; }
@@ -51,7 +51,7 @@ const fresh = templates.map((tpl) => {
     if (!J[p].threw) for (const n of Object.keys(defs)) { if (n in F && !deepEq(F[n], defs[n])) conflicts.push(n); else F[n] = clone(defs[n]); }
   }
   const U = Object.keys(F).sort();
-  const deps = {};
+  const deps = Object.create(null);
   for (const n of U) deps[n] = [...new Set(refsOf(F[n]).map((r) => nameOfRef(tpl, r)))];
   return { F, J, reach, U, deps, conflicts };
 });
@@ -60,7 +60,7 @@ const fresh = templates.map((tpl) => {
 function makeCtx(ci, ti, pre /* undefined = symbolic, else array of names */) {
   const fr = fresh[ti];
   const c = new rt.SchemaPrintingContext(templates[ti]);
-  const sym = {};
+  const sym = Object.create(null);
   if (pre === undefined) {
     fr.U.forEach((n, i) => { sym[n] = $S.symBool(`c${ci}_${i}`); });
     const cl = [];
@@ -70,10 +70,11 @@ function makeCtx(ci, ti, pre /* undefined = symbolic, else array of names */) {
   const written = new Map(), deleted = new Set(), log = [];
   const preHas = (k) => (pre === undefined ? (k in sym ? $S.forkOn(sym[k]) : false) : pre.includes(k));
   // own(k): k is an own key of the record (what a JSON export contains); has(k): the `in` operator, which also sees Object.prototype
-  // (the real record is a plain object literal, so `"toString" in collectedDefinitions` is true from the start)
+  // (if the real record is a plain object literal, `"toString" in collectedDefinitions` is true from the start)
   const own = (k) => { if (typeof k !== 'string') return false; if (written.has(k)) return true; if (deleted.has(k)) return false; return preHas(k); };
-  const has = (k) => own(k) || (typeof k === 'string' && k in Object.prototype);
-  const get = (k) => { if (!own(k)) return typeof k === 'string' ? Object.prototype[k] : undefined; if (!written.has(k)) written.set(k, clone(fr.F[k])); return written.get(k); };
+  const proto = Object.getPrototypeOf(c.collectedDefinitions);      // the record the real constructor made: a plain object inherits from Object.prototype
+  const has = (k) => own(k) || (typeof k === 'string' && proto !== null && k in proto);
+  const get = (k) => { if (!own(k)) return typeof k === 'string' && proto !== null ? proto[k] : undefined; if (!written.has(k)) written.set(k, clone(fr.F[k])); return written.get(k); };
   const proxy = new Proxy({}, {
     has: (_t, k) => has(k),
     get: (_t, k) => (typeof k === 'string' ? get(k) : undefined),
